@@ -17,7 +17,7 @@ import collections
 from mc import env  # noqa: F401  (binds desper to the tree under test)
 from mc.canon import canon
 from mc.kernel import Pruned
-from mc.report import Violation
+from mc.report import Violation, Lookalike
 
 import desper
 
@@ -158,6 +158,19 @@ class HZ(H):
             self.marks.append(len(self.log))
 
 
+class HR(H):
+    """on_remove raises - once per instance (a callback that quits the loop
+    or switches world does exactly that)."""
+    raised = None
+
+    def h_removed(self, entity, world):
+        super().h_removed(entity, world)
+        if not getattr(self, 'fired', False):
+            self.fired = True
+            self.raised.append((self.label, entity))
+            raise Lookalike(f'{self.label}.on_remove({entity}) raises')
+
+
 class HY(H):
     """on_add disables dispatching (a loading gate): whatever else the
     running operation still has to announce is postponed."""
@@ -245,7 +258,7 @@ class _Types(dict):
         return dict.__contains__(self, name)
 
 
-TYPES = _Types({c.__name__: c for c in (A, X, N, H, HB, HD, HZ, HY, HS, HKR,
+TYPES = _Types({c.__name__: c for c in (A, X, N, H, HB, HD, HZ, HY, HR, HS, HKR,
                                          P, OA)})
 
 
@@ -358,6 +371,7 @@ class WorldDriver:
         ctx.comps = []           # every component ever created (kept alive)
         ctx.procs = {}
         ctx.callback_errors = []
+        ctx.raised = []          # (label, entity) of callbacks that raised
         ctx.listener_errors = []
         ctx.busy = []
         ctx.op_new = []          # components created by the running operation
@@ -412,6 +426,7 @@ class WorldDriver:
         comp = TYPES[type_name](f'{type_name}{ctx.counter}', ctx.log)
         if isinstance(comp, H):
             comp.sink = ctx.callback_errors
+            comp.raised = ctx.raised
             if 'L' in self.own:
                 comp.known = ctx.comps
                 comp.busy = ctx.busy
@@ -508,6 +523,38 @@ class WorldDriver:
 
     # -- transition ----------------------------------------------------
     def apply(self, ctx, op):
+        del ctx.raised[:]
+        try:
+            self._apply(ctx, op)
+        except Violation as v:
+            if not ctx.raised or 'Lookalike(' not in v.detail:
+                raise
+            # a lifecycle callback raised by design inside this operation:
+            # the exception reaching the caller is what is expected
+        if not ctx.raised:
+            return
+        ctx.hits['lifecycle_callback_raised'] += 1
+        if op[0] == 'process':
+            ctx.hits['frame_failed_by_raising_callback'] += 1
+        # "a failed process() never leaves the world failing on every later
+        # frame": the callback raises once; a stray mark may cost one more
+        # frame (pinned KeyError) - the third one at the latest completes
+        errors = []
+        for _ in range(3):
+            try:
+                ctx.world.process(0.5)
+            except Exception as exc:
+                errors.append(repr(exc))
+        if len(errors) == 3:
+            raise Violation(
+                'failed_frame_is_not_sticky',
+                f'{op}: {ctx.raised[0][0]}.on_remove raised (once); the '
+                f'next three process() calls all failed: {errors}',
+                op=op[0])
+        raise Pruned('a lifecycle callback raised: what the interrupted '
+                     'operation leaves behind is not specified')
+
+    def _apply(self, ctx, op):
         w = ctx.world
         kind = op[0]
         events = []
